@@ -111,13 +111,35 @@ def _worker_env(hashseed="0"):
     return env
 
 
-def run_impl(prop_id: str, cases: list[dict], tmpdir: str, tag="w", timeout_per_case=120) -> list:
+def _read_out(out, obs):
+    done, started = set(), None
+    if os.path.exists(out):
+        for line in open(out):
+            line = line.strip()
+            if not line:
+                continue
+            try:
+                r = json.loads(line)
+            except Exception:
+                continue
+            if "start" in r:
+                started = r["start"]
+                continue
+            obs[r["i"]] = r["obs"]
+            done.add(r["i"])
+    return done, started
+
+
+def run_impl(prop_id: str, cases: list[dict], tmpdir: str, tag="w", case_timeout=None) -> list:
     """Run prop.impl on every case in worker subprocesses; returns obs list (same order).
-    A worker death marks the case it was working on as {"crash": rc} and the rest is resumed."""
+    A worker death -- or no progress for `case_timeout` seconds (CBC sometimes hangs) -- marks the
+    case in flight as {"crash": rc} and the remaining cases of that worker are resumed."""
     n = len(cases)
     obs: list = [None] * n
     if n == 0:
         return obs
+    if case_timeout is None:
+        case_timeout = float(os.environ.get("VERIF_CASE_TIMEOUT", "60"))
     nw = max(1, min(NWORK, (n + 3) // 4))
     chunks = [list(range(k, n, nw)) for k in range(nw)]
     pending = {k: chunks[k] for k in range(nw) if chunks[k]}
@@ -132,44 +154,46 @@ def run_impl(prop_id: str, cases: list[dict], tmpdir: str, tag="w", timeout_per_
                 for i in idxs:
                     f.write(json.dumps({"i": i, "case": cases[i]}) + "\n")
             hs = cases[idxs[0]].get("hashseed", 0) if isinstance(cases[idxs[0]], dict) else 0
+            errf = open(os.path.join(tmpdir, f"{tag}_{k}_{rounds}.err"), "wb")
             p = subprocess.Popen(
                 [PY, "-m", "vharness.worker", prop_id, inp, out],
-                env=_worker_env(hs),
-                stdout=subprocess.DEVNULL,
-                stderr=subprocess.PIPE,
-                cwd=tmpdir,
-            )
-            procs[k] = (p, idxs, out)
+                env=_worker_env(hs), stdout=subprocess.DEVNULL, stderr=errf, cwd=tmpdir)
+            procs[k] = {"p": p, "idxs": idxs, "out": out, "err": errf, "size": -1, "t": time.time(), "rc": None}
+        live = set(procs)
+        while live:
+            time.sleep(0.2)
+            now = time.time()
+            for k in list(live):
+                d = procs[k]
+                rc = d["p"].poll()
+                if rc is not None:
+                    d["rc"] = rc
+                    live.discard(k)
+                    continue
+                try:
+                    sz = os.path.getsize(d["out"])
+                except OSError:
+                    sz = -1
+                if sz != d["size"]:
+                    d["size"], d["t"] = sz, now
+                elif now - d["t"] > case_timeout:
+                    d["p"].kill()
+                    d["p"].wait()
+                    d["rc"] = "timeout"
+                    live.discard(k)
         new_pending = {}
-        for k, (p, idxs, out) in procs.items():
-            try:
-                _, err = p.communicate(timeout=timeout_per_case * max(1, len(idxs)))
-                rc = p.returncode
-            except subprocess.TimeoutExpired:
-                p.kill()
-                _, err = p.communicate()
-                rc = -9
-            done = set()
-            started = None
-            if os.path.exists(out):
-                for line in open(out):
-                    line = line.strip()
-                    if not line:
-                        continue
-                    try:
-                        r = json.loads(line)
-                    except Exception:
-                        continue
-                    if "start" in r:
-                        started = r["start"]
-                        continue
-                    obs[r["i"]] = r["obs"]
-                    done.add(r["i"])
-            rest = [i for i in idxs if i not in done]
+        for k, d in procs.items():
+            d["err"].close()
+            done, started = _read_out(d["out"], obs)
+            rest = [i for i in d["idxs"] if i not in done]
             if rest:
-                # the worker died: the case it had started is the culprit
+                # the worker died or hung: the case it had started is the culprit
                 bad = started if started in rest else rest[0]
-                obs[bad] = {"crash": rc, "stderr": (err or b"").decode("utf8", "replace")[-400:]}
+                try:
+                    err = open(d["err"].name, "rb").read().decode("utf8", "replace")[-400:]
+                except Exception:
+                    err = ""
+                obs[bad] = {"crash": d["rc"], "stderr": err}
                 rest = [i for i in rest if i != bad]
                 if rest:
                     new_pending[k] = rest
